@@ -505,9 +505,15 @@ class SInt(object):
         return self._divmod(o, True)
 
     def __truediv__(self, o):
+        # int / (power of two) is exact in binary floating point as long as the int has fewer
+        # than 53 bits: keep it as an exact dyadic number
+        if isinstance(o, (int, float)) and o > 0 and float(o) == int(o) and \
+                (int(o) & (int(o) - 1)) == 0 and max(abs(self.lo), abs(self.hi)) < (1 << 53):
+            return SDyadic(self, int(o).bit_length() - 1)
         raise Unsupported('true division of symbolic int')
 
-    __rtruediv__ = __truediv__
+    def __rtruediv__(self, o):
+        raise Unsupported('true division by symbolic int')
 
     def __pow__(self, o, m=None):
         if isinstance(o, int) and 0 <= o <= 4 and m is None:
@@ -725,6 +731,29 @@ class SInt(object):
 
     def __format__(self, spec):
         raise Unsupported('formatting a symbolic int')
+
+
+class SDyadic(object):
+    """Exact value num / 2^k (result of int / 2^k); supports what pcbasic does with it."""
+
+    def __init__(self, num, k):
+        self.num, self.k = num, k
+
+    def __trunc__(self):
+        a = abs(self.num)
+        q = a >> self.k
+        return ite(self.num < 0, -q, q)
+
+    __int__ = __trunc__
+
+    def __floor__(self):
+        return self.num >> self.k
+
+    def __neg__(self):
+        return SDyadic(-self.num, self.k)
+
+    def __float__(self):
+        raise Unsupported('float() of a symbolic dyadic number')
 
 
 def _shift(a, b, left):
